@@ -403,6 +403,11 @@ func evalConstructorDeclareStmt(vm *r.VM, node *syntax.FunctionDeclareStmt) erro
 	if !ok {
 		return zerr.InvalidClassType(className.GetLiteral())
 	}
+	// predefined types (e.g. 异常) and types of standard libraries are shared by ALL
+	// executions in this process - only types defined by the program have a constructor to define
+	if module == nil || module.GetProgram() == nil {
+		return zerr.InvalidClassType(className.GetLiteral())
+	}
 
 	//// there are some different Factors from normal method function:
 	// 1. no outerScope (clousure scope)
@@ -1172,7 +1177,16 @@ func evalPrimeExpr(vm *r.VM, expr syntax.Expression) (r.Element, error) {
 		}
 		switch t := idValue.(type) {
 		case *r.IDName:
-			return vm.FindElement(t)
+			elem, err := vm.FindElement(t)
+			if err != nil {
+				return nil, err
+			}
+			// predefined values are shared by ALL executions in this process - hand out a copy
+			// of the mutable ones (e.g. 数值), so that in-place methods could not change them
+			if _, isPredefined := GlobalValues[t.GetLiteral()]; isPredefined {
+				elem = value.DuplicateValue(elem)
+			}
+			return elem, nil
 		case *r.IDNumber:
 			return value.NewNumber(t.GetValue()), nil
 		default:
